@@ -248,6 +248,18 @@ def full_harness_name(ob_file, fn):
     return base + "::" + fn
 
 
+STUBSETS = {
+    "geom": [("crate::magic::between", "crate::vstubs::between_cf"), ("crate::magic::line", "crate::vstubs::line_cf"),
+             ("crate::magic::get_bishop_rays", "crate::vstubs::bishop_rays_cf"), ("crate::magic::get_rook_rays", "crate::vstubs::rook_rays_cf"),
+             ("crate::magic::get_knight_moves", "crate::vstubs::knight_moves_cf"), ("crate::magic::get_king_moves", "crate::vstubs::king_moves_cf"),
+             ("crate::magic::get_pawn_attacks", "crate::vstubs::pawn_attacks_cf")],
+    "sliders": [("crate::magic::get_rook_moves", "crate::vstubs::rook_moves_cf"), ("crate::magic::get_bishop_moves", "crate::vstubs::bishop_moves_cf")],
+    "pawns": [("crate::magic::get_pawn_moves", "crate::vstubs::pawn_moves_cf"), ("crate::magic::get_pawn_quiets", "crate::vstubs::pawn_quiets_cf")],
+    "rankfile": [("crate::magic::get_rank", "crate::vstubs::rank_cf"), ("crate::magic::get_file", "crate::vstubs::file_cf"),
+                 ("crate::magic::get_adjacent_files", "crate::vstubs::adjacent_files_cf")],
+}
+
+
 def gen_instances_source(fams):
     """fams: list of (ob, instances).  Emits one #[kani::proof] per instance into the family's own module
     through an `include!`-free route: the generated functions live in the harness module itself via a macro
@@ -259,6 +271,9 @@ def gen_instances_source(fams):
             src.append("#[kani::proof]")
             if ob.unwind:
                 src.append("#[kani::unwind(%s)]" % ob.unwind)
+            for ss in (ob.d.get("stubs", "") or "").split(","):
+                for a, b in STUBSETS.get(ss.strip(), []):
+                    src.append("#[kani::stub(%s, %s)]" % (a, b))
             if ob.attrs:
                 for a in ob.attrs.split(";"):
                     a = a.strip()
